@@ -185,9 +185,10 @@ inline void erase_at(T *first, SizeType count) {
 /// Requirements: n < count
 template <class T, class SizeType, typename std::enable_if<!std::is_trivially_copyable<T>::value, bool>::type = true>
 inline void fill(T *first, SizeType n, SizeType count, const T &v) {
-  // uninitialized fill first for slightly better exception safety
-  std::uninitialized_fill_n(first + n, count - n, v);
+  // Assign first: if the construction of the new elements was done first and an assignment threw afterwards,
+  // these new elements would be lost (the size of the vector is only updated at the end)
   std::fill_n(first, n, v);
+  std::uninitialized_fill_n(first + n, count - n, v);
 }
 
 template <class T, class SizeType, typename std::enable_if<std::is_trivially_copyable<T>::value, bool>::type = true>
